@@ -197,8 +197,23 @@ def frames_pool():
     ]
 
 
-def chunkings(stream, r, k):
+def chunkings(stream, r, k, bounds=None):
     res = [[stream], [[x] for x in stream]]
+    if bounds:
+        # frame-aligned chunkings (seed C13d: state left by a remainder survives a pass that ends exactly on a
+        # frame boundary): every frame its own chunk, and one frame cut in two with all other cuts on boundaries
+        inner = [b for b in bounds if 0 < b < len(stream)]
+        if inner:
+            res.append([stream[a:b] for a, b in zip([0] + inner, inner + [len(stream)])])
+        starts = [0] + inner
+        ends = inner + [len(stream)]
+        cand = [(a, b) for a, b in zip(starts, ends) if b - a >= 3]
+        for a, b in (cand[:1] + r.sample(cand, min(1, len(cand)))):
+            for cut in sorted(set([b - 2, a + r.randint(1, b - a - 1)])):
+                cuts = sorted(set(inner + [cut]))
+                ch = [stream[x:y] for x, y in zip([0] + cuts, cuts + [len(stream)])]
+                if ch not in res:
+                    res.append(ch)
     for _ in range(k):
         n = r.randint(1, min(6, len(stream) - 1))
         cuts = sorted(r.sample(range(1, len(stream)), n))
@@ -247,7 +262,7 @@ def check(ctx):
     ctx.rule = ('proof: chunking theorem C13 over an abstract dispatcher with pure rejections; C13_wrapper: for the protocols whose traced decode() trees meet the kernel-checked obligation c13OK '
                 'a rejected candidate leaves the decoder instance unchanged, so the theorem applies with that protocol\'s decode() as the dispatcher; '
                 'correspondence: the REAL DecodeThread (instrumented Event/deque = scheduling points, real append()/run()) vs the Lean fine-grained '
-                'machine under identical schedules: streams of 2-4 frames from a pool (incl. inner-gap and garbage frames), chunkings {one call, one duration '
+                'machine under identical schedules: streams of 2-4 frames from a pool (incl. inner-gap and garbage frames), chunkings {one call, frame-aligned (each frame its own chunk; one frame cut in two, all other cuts on frame boundaries), one duration '
                 'at a time, random cuts}, schedules {worker-first, feeder-first, random, feeder step inserted at every worker position}; after every worker step '
                 'outputs, program point, flag, decode_universal and buffer are compared. search: for every schedule the delivered sequence must equal the '
                 'one-call sequence and the thread must be alive; plus real dispatcher/real protocol frames (NEC, Sony12, RC5, JVC, ...) through '
@@ -266,7 +281,8 @@ def check(ctx):
             stream = [x for f in fr for x in f]
             f = r.choice([38000, 38000, 0])
             ref = None
-            for ch in chunkings(stream, r, 3 if not ctx.thorough else 8):
+            bounds = list(itertools.accumulate(len(x) for x in fr))
+            for ch in chunkings(stream, r, 3 if not ctx.thorough else 8, bounds):
                 scheds = [itertools.repeat(True), itertools.repeat(False)]
                 for _ in range(n_sched):
                     p = r.choice([0.2, 0.5, 0.8])
@@ -338,18 +354,21 @@ def real_dispatcher(ctx, r):
     for k in range(n):
         on = r.sample(decs, r.randint(1, 4))
         seq = []
+        rbounds = []
         for _ in range(r.randint(1, 3)):
             d = r.choice(on)
             try:
                 code = protos.encode(d, protos.sample_params(d, r), repeat_count=r.choice([0, 0, 1, 2]))
-                seq += [x for fr in protos.frames(code) for x in fr]
+                for fr in protos.frames(code):
+                    seq += list(fr)
+                    rbounds.append(len(seq))
             except Exception:
                 pass
         if len(seq) < 8:
             continue
         f = on[0].frequency if all(x.frequency == on[0].frequency for x in on) else 0
         ref = None
-        for ch in chunkings(seq, r, 3):
+        for ch in chunkings(seq, r, 3, rbounds):
             for d in alldecs:
                 d.enabled = d in on
                 d._last_code = None
